@@ -35,6 +35,8 @@ class FnTarget(_AbstractDistribution):
         self.glog = glog if glog is not None else []
         self.fault = None      # callable(kind, index) raising at chosen call boundaries
         self.ncalls = 0
+        self.script = None     # optional list: misfit of the 1st, 2nd, ... DISTINCT argument (then the hash rule again)
+        self._scripted = {}
         if lower is not None or upper is not None:
             self.update_bounds(lower, upper)
 
@@ -44,6 +46,12 @@ class FnTarget(_AbstractDistribution):
             self.fault(kind, len(self.glog))     # global index of this call in the shared log
 
     def misfit_value(self, m):
+        if self.script is not None:
+            key = _h(0, "key", m)
+            if key not in self._scripted and len(self._scripted) < len(self.script):
+                self._scripted[key] = float(self.script[len(self._scripted)])
+            if key in self._scripted:
+                return self._scripted[key]
         h = _h(self.seed, "m", m)
         if (h % 1000) < 1000 * self.special_rate:
             return self.misfit_palette[(h // 1000) % len(self.misfit_palette)]
@@ -144,6 +152,8 @@ class FnMass(_AbstractMassMatrix):
         self.momenta = []       # scripted momenta (lists); fallback: dyadic normals from rng
         self.fault = None
         self.ncalls = 0
+        self.script = None     # optional list: kinetic energy of the 1st, 2nd, ... DISTINCT momentum
+        self._scripted = {}
 
     def _tick(self, kind):
         self.ncalls += 1
@@ -151,6 +161,12 @@ class FnMass(_AbstractMassMatrix):
             self.fault(kind, len(self.glog))
 
     def kinetic_value(self, p):
+        if self.script is not None:
+            key = _h(0, "key", p)
+            if key not in self._scripted and len(self._scripted) < len(self.script):
+                self._scripted[key] = float(self.script[len(self._scripted)])
+            if key in self._scripted:
+                return self._scripted[key]
         h = _h(self.seed, "k", p)
         if (h % 1000) < 1000 * self.special_rate:
             return [NAN, INF, 1e300][(h // 1000) % 3]
